@@ -758,6 +758,131 @@ def gen_text_runs(ctx, n):
     return out
 
 
+# ---------------------------------------------------------------- user `output.text` hooks
+# `output.text` is the documented text processor option: every piece the formatter writes is handed to it and what it
+# RETURNS is what is written (default: the piece itself).  With a hook h installed the statement reads: the characters
+# of the text reach h verbatim and in order, and the element's content is what h returned for them -- also when that
+# is the EMPTY string for a non-empty piece (a hook that deletes zero-width characters, letters, white space, or
+# everything), a longer string (escaping), or a changed one.  Hooks are named so that a replay can rebuild them; each
+# is a pure function of the piece.
+ZERO_WIDTH = '\u200b\ufeff\u00ad\u200d\u2060'     # zero width space, BOM / zero width no-break space, soft hyphen, joiner, word joiner
+HOOKS = {
+    'identity': lambda t: t,
+    'delete-everything': lambda t: '',
+    'delete-zero-width': lambda t: ''.join(c for c in t if c not in ZERO_WIDTH),
+    'delete-letters-digits': lambda t: ''.join(c for c in t if not c.isalnum()),
+    'keep-letters-digits': lambda t: ''.join(c for c in t if c.isalnum()),
+    'delete-white-space': lambda t: ''.join(c for c in t if not c.isspace()),
+    'delete-non-ascii': lambda t: ''.join(c for c in t if ord(c) < 128),
+    'escape-html': lambda t: t.replace('&', '&amp;').replace('<', '&lt;').replace('>', '&gt;'),
+    'upper-case': lambda t: t.upper(),
+    'first-character': lambda t: t[:1],
+    'bracket-each-piece': lambda t: '\u27e6' + t + '\u27e7',
+}
+HOOK_NAMES = sorted(HOOKS)
+# payloads / wrap lines made of ONE class of characters (what a class-deleting hook maps to '' as a whole)
+CLASS_CHARS = {'zero-width': list(ZERO_WIDTH), 'white space': [' ', '\t', '\xa0', '\u3000'], 'letters': list('aZ\xe9\u65e5'),
+               'digits': list('09\u0663'), 'punctuation': list('!#%&*+,-./:;<=>?@^_|~()[]'),
+               'non-ascii': list('\xe9\u65e5\u200b\ufeff\xa0')}
+
+
+def expand_hooked(abbr, cfg, hook):
+    """expand under the named hook; returns ('ok', output, calls) with calls = [('text', piece, returned) | ('field', returned)]."""
+    import copy
+    from emmet import expand
+    from markup_util import classify_exc
+    h = HOOKS[hook]
+    calls = []
+
+    def text(t, **kw):
+        r = h(t)
+        calls.append(('text', t, r))
+        return r
+
+    def field(index, placeholder, **kw):
+        calls.append(('field', placeholder))
+        return placeholder
+    uc = copy.deepcopy(cfg)
+    uc['options'] = dict(uc.get('options') or {})
+    uc['options']['output.text'] = text
+    uc['options']['output.field'] = field
+    try:
+        return ('ok', expand(abbr, uc), calls)
+    except Exception as e:  # noqa
+        return classify_exc(e)
+
+
+def hook_oracle(abbr, cfg, meta, hook, r):
+    if r[0] != 'ok':
+        return 'expand with the `output.text` hook %s did not return a string: %r' % (hook, r[:2])
+    out, calls = r[1], r[2]
+    fed = ''.join(c[1] for c in calls)
+    if not any(match_alt(p, fed) for p in [meta['pieces']] + list(meta.get('alt_pieces') or [])):
+        return ('the pieces handed to the `output.text` hook %s, %r, do not carry the text as written; expected pieces %r'
+                % (hook, fed[:300], meta['pieces'][:12]))
+    want = ''.join(c[-1] for c in calls)
+    if out != want:
+        k = next((c for c in calls if c[0] == 'text' and c[1] and not c[2]), None)
+        return ('output %r is not what the `output.text` hook %s returned, %r%s'
+                % (out[:300], hook, want[:300], ' (e.g. it returned %r for the piece %r)' % (k[2], k[1]) if k else ''))
+    return None
+
+
+def gen_hook_cases(ctx, cases, n):
+    """(abbr, cfg, meta, hook): every hook on texts / wrap lines made of one character class at each text position, then
+    random hooks on a sample of all statement-level cases generated above."""
+    rng = ctx.rng
+    out = []
+    for cls in sorted(CLASS_CHARS):
+        for ln in (1, 2, 4):
+            T = ''.join(rng.choice(CLASS_CHARS[cls]) for _ in range(ln))
+            V = g.unescape(T)
+            for hook in HOOK_NAMES:
+                for kind, abbr, pieces in shapes_text(T)[:: 1 if ln == 1 else 3]:
+                    out.append(case('hook:' + kind, abbr, pieces) + (hook,))
+                if V.strip():
+                    lines = ['one', V, '', ' ' + V + 'x ']
+                    nb = [l.strip() for l in lines if l.strip()]
+                    out.append(case('hook:wrap-implicit', 'ul>li*', ['<ul>'] + sum([['<li>', ['T', l], '</li>'] for l in nb], []) + ['</ul>'],
+                                    plain({'text': lines})) + (hook,))
+                    out.append(case('hook:wrap-implicit+$#', 'ul>li[title=$#]{$#}*',
+                                    ['<ul>'] + sum([['<li title="%s">' % l, ['T', l], '</li>'] for l in nb], []) + ['</ul>'],
+                                    plain({'text': lines})) + (hook,))
+                    out.append(case('hook:wrap-plain', 'div>p', ['<div><p>', ['T', V.strip()], '</p></div>'], plain({'text': V})) + (hook,))
+                ctx.cover('hook:text of one class: ' + cls)
+    pool = [cs for cs in cases if cs[2].get('pieces') is not None and not cs[2]['kind'].startswith(('corpus', 'indent'))
+            and cs[1].get('options') == g.PLAIN['options']]
+    for cs in rng.sample(pool, min(n, len(pool))):
+        out.append((cs[0], cs[1], dict(cs[2], kind='hook:' + cs[2]['kind'].split(':')[0]), rng.choice(HOOK_NAMES)))
+    return out
+
+
+def hook_stream(ctx, hcases):
+    for abbr, cfg, meta, hook in hcases:
+        r = expand_hooked(abbr, cfg, hook)
+        ctx.count_eval()
+        ctx.cover('hook:' + hook)
+        if r[0] == 'ok':
+            if any(c[0] == 'text' and c[1] and not c[2] for c in r[2]):
+                ctx.cover('hook:returned the empty string for a non-empty piece')
+                ctx.nontrivial(('hook', hook, abbr))
+            if any(c[0] == 'text' and len(c[2]) > len(c[1]) for c in r[2]):
+                ctx.cover('hook:returned a longer string')
+        bad = hook_oracle(abbr, cfg, meta, hook, r)
+        if bad:
+            ctx.property_failure('C04hook:%s|%s|%s' % (hook, abbr, canon_cfg(cfg)), 'C04 expand(%r, %s): %s' % (abbr, canon_cfg(cfg), bad),
+                                 {'component': 'C04-hook', 'abbr': abbr, 'config': cfg, 'meta': meta, 'hook': hook, 'why': bad})
+    ctx.cov['output_text_hook_cases'] = len(hcases)
+
+
+def replay_hook(rp):
+    r = expand_hooked(rp['abbr'], rp['config'], rp['hook'])
+    bad = hook_oracle(rp['abbr'], rp['config'], rp['meta'], rp['hook'], r)
+    print('expand(%r, %s) with the `output.text` hook %s -> %r' % (rp['abbr'], canon_cfg(rp['config']), rp['hook'], r[:2]))
+    print('property %s' % ('FAILS: ' + bad if bad else 'holds on this input'))
+    return 1 if bad else 0
+
+
 def gen_outside(ctx, n):
     """Inputs outside the statement's domain (unbalanced braces, unescaped `$`, `$#` without or outside the
     implicit repeater, several implicit repeaters, text given as one multi-line / padded string together with an
@@ -1094,6 +1219,9 @@ def run(ctx):
         if bad:
             ctx.property_failure('C04:%s|%s' % (abbr, canon_cfg(cfg)), 'C04 expand(%r, %s): %s' % (abbr, canon_cfg(cfg), bad),
                                  {'abbr': abbr, 'config': cfg, 'meta': meta, 'impl': repr(r[:2])[:500], 'why': bad})
+    # 1b. user `output.text` hooks (named pure functions, some returning '' for non-empty pieces): oracle only, the model has
+    # the identity hook
+    hook_stream(ctx, gen_hook_cases(ctx, cases, 1500 if quick else 20000))
     # 2. the same abbreviations under formatting configurations: model vs implementation (output string)
     rng = ctx.rng
     second = []
@@ -1177,6 +1305,8 @@ def replay(ctx, obj):
         return atg.replay(rp)
     if rp.get('component') == 'C04-nested':
         return replay_nested(rp)
+    if rp.get('component') == 'C04-hook':
+        return replay_hook(rp)
     if rp.get('component') == 'C04expand':
         return atg.replay_expand(rp)
     if rp.get('component') == 'C04href':
